@@ -943,7 +943,17 @@ fn check_to_payload(p: &pdu::Payload, spec: &PduSpec) -> CheckResult {
             return Err(Fail::new(format!("to_payload accepted {:?}, which is no valid origin: {:?}", spec, got)));
         }
         (Err(_), Some(exp)) => {
-            return Err(Fail::new(format!("to_payload rejected {:?}, expected {:?}", spec, exp)));
+            // A prefix PDU with bits set behind the prefix length is not the wire form of any
+            // payload item (items have the host bits clear): the reader may normalise it (the
+            // expectation above) or refuse it. Everything else must come back.
+            let host_bits = match spec {
+                PduSpec::V4 { len, addr, .. } => *len < 32 && (*addr as u64) & ((1u64 << (32 - *len as u32)) - 1) != 0,
+                PduSpec::V6 { len, addr, .. } => *len < 128 && addr.0 & (if *len == 0 { u128::MAX } else { (1u128 << (128 - *len as u32)) - 1 }) != 0,
+                _ => false,
+            };
+            if !host_bits {
+                return Err(Fail::new(format!("to_payload rejected {:?}, expected {:?}", spec, exp)));
+            }
         }
     }
     Ok(())
